@@ -147,11 +147,28 @@ left alone), and the new score is live only if that state's score was -/
 def EvalState (h h' : Hmm) (j : Nat) : Prop :=
   ∃ i ∈ List.range (j + 1), h'.hi j = h.hi i ∧ (live (h'.sc j) → live (h.sc i))
 
+/-- the emitting states the exit state of an `n`-state HMM can be reached from within one frame, as
+`hmm_vit_eval` (hmm.c:747-763) dispatches: `hmm_vit_eval_3st_lr[_mpx]` (`n = 3`) reads only `s1`, `s2` in its
+"transitions into non-emitting state 3" block (hmm.c:498-514: `t1 = s2 + tp(2,3)`, `t2 = s1 + tp(1,3)`),
+`hmm_vit_eval_5st_lr[_mpx]` (`n = 5`) only `s3`, `s4` (hmm.c:180-195); `hmm_vit_eval_anytopo` (every other
+`n`) scans all `from < n` whose arc to the final state exists in the transition matrix.  In particular a 3- or
+5-state HMM never takes its exit score from state 0, the state `hmm_enter` writes: a token needs at least one
+frame inside the HMM before it can leave it. -/
+def OutFrom (n i : Nat) : Prop := (n = 3 → 1 ≤ i) ∧ (n = 5 → 3 ≤ i)
+
+instance (n i : Nat) : Decidable (OutFrom n i) := by unfold OutFrom; infer_instance
+
+/-- the numbers of emitting states `hmm_vit_eval` has a dedicated left-to-right evaluator for (3 in every shipped
+model): for these the exit state is never fed from state 0 (`OutFrom`) -/
+def LaterTopo (n : Nat) : Prop := n = 3 ∨ n = 5
+
+instance (n : Nat) : Decidable (LaterTopo n) := by unfold LaterTopo; infer_instance
+
 /-- `hmm_vit_eval`, exit state: left alone (history kept; the score kept or reset), or taken from an
-emitting state -/
+emitting state that has an arc to the exit state in the evaluator's topology (`OutFrom`) -/
 def EvalOut (n : Nat) (h h' : Hmm) : Prop :=
   (h'.outHist = h.outHist ∧ (live h'.outScore → live h.outScore)) ∨
-  ∃ i ∈ List.range n, h'.outHist = h.hi i ∧ (live h'.outScore → live (h.sc i))
+  ∃ i ∈ List.range n, OutFrom n i ∧ h'.outHist = h.hi i ∧ (live h'.outScore → live (h.sc i))
 
 instance (h h' : Hmm) (j : Nat) : Decidable (EvalState h h' j) := by unfold EvalState; infer_instance
 instance (n : Nat) (h h' : Hmm) : Decidable (EvalOut n h h') := by unfold EvalOut; infer_instance
